@@ -307,40 +307,79 @@ theorem async_send_counters (c : Cfg) (hr : Reachable c) (i : Nat) (hk : (c.s i)
   simp only [wroteOk]
   cases wres <;> (try (rename_i r; cases r)) <;> simp_all [Pc.rank, b2n, WRes.counted] <;> grind
 
-/-- **What DataMsgSendCount can miss** (the exact gap to "messages the peer received"): a request the engine completed — every block
-    ACKed — whose `Write` nevertheless did not return nil.  That happens only through the `genDone` branch of Write's result select
-    (both channels ready: the engine's report and the teardown broadcast), i.e. only on a generation whose teardown broadcast is
-    closed; the call then returns connection-closed and counts nothing.  On a live generation every completed request is counted. -/
-theorem acked_but_uncounted_only_at_generation_end (c : Cfg) (hr : Reachable c) (i : Nat) (hd : (c.s i).done = some .ok)
-    (hp : (c.s i).pc = .done) (hn : wroteOk (c.s i) = false) :
-    (c.s i).wres = some .closed ∧ (c.g (c.s i).ep).genDone = true := by
+/-- the engine reported success for this request (every block ACKed) while its sender was still waiting for the report -/
+def finishedOk (w : Sender) : Bool := decide (w.done = some .ok) && !w.late
+
+/-- **A message whose every block was ACKed is counted** (full strength since the repair c77bf45 of Write's result select): for a
+    call that has returned, the engine reported success while the sender was waiting ⟺ Write returned nil and DataMsgSendCount was
+    incremented exactly once.  In particular a report that is in when the generation's teardown broadcast closes is taken, not
+    overridden by connection-closed. -/
+theorem acked_in_full_is_counted (c : Cfg) (hr : Reachable c) (i : Nat) (hp : (c.s i).pc = .done) :
+    (finishedOk (c.s i) = true ↔ wroteOk (c.s i) = true) ∧ (c.s i).dSent = b2n (finishedOk (c.s i)) := by
   have hc := cinv_reachable hr
   have h1 := hc.scnt i
   have h2 := hc.sout i
-  have h3 := hc.bail i
-  have h4 := hc.sloc i
-  obtain ⟨g, hg⟩ := Option.isSome_iff_exists.mp (h3.2 (by simp [hd]))
-  have hge := h4.2.1 g hg
-  have hb := h3.1 g hg
-  rw [← hge] at hb
-  generalize (c.g (c.s i).ep).genDone = gd at *
   generalize c.s i = w at *
-  clear hc hr h3 h4
+  clear hc hr
   rec_cases w
   subst hp
-  simp only [SCnt, SOut, Sender.wcounted, wroteOk] at *
-  cases wres <;> (try (rename_i r; cases r)) <;> simp_all [Pc.rank, b2n] <;> grind
+  simp only [SCnt, SOut, Sender.wcounted, wroteOk, finishedOk] at *
+  cases late <;> cases done <;> (try (rename_i d; cases d)) <;> cases wres <;> (try (rename_i r; cases r)) <;>
+    simp_all [Pc.rank, b2n]
 
-/-- the gap is real in the model: a single-block message completely ACKed, then the generation torn down before the sender took the
-    engine's report; the sender takes the `genDone` branch: connection-closed, nothing counted, one ACKed block on the wire -/
-def gapTrace : List Action :=
+/-- **At quiescence DataMsgSendCount = number of requests whose every block was ACKed** (reported while the sender waited). -/
+theorem sent_eq_requests_finished_ok (c : Cfg) (hr : Reachable c)
+    (hq : ∀ i, i ∈ c.started → (c.s i).pc = .done ∨ (c.s i).pc = .queued) :
+    c.m.sent = (c.started.filter (fun i => finishedOk (c.s i))).length := by
+  rw [sent_eq_writes_returned_ok c hr]
+  congr 1
+  apply List.filter_congr
+  intro i hi
+  rcases hq i hi with h | h
+  · have := (acked_in_full_is_counted c hr i h).1
+    cases h1 : finishedOk (c.s i) <;> cases h2 : wroteOk (c.s i) <;> simp_all
+  · have hd := ((cinv_reachable hr).sloc i).2.2.2 (by simp [h, Pc.rank])
+    simp [wroteOk, finishedOk, h, hd, Pc.rank]
+
+/-- what remains outside: a report the engine makes AFTER the sender has left `Write` through the teardown broadcast (the report was
+    not in when `genDone` was seen closed).  It exists only on a generation whose teardown broadcast is closed, the call has returned
+    connection-closed, and nothing is counted — the connection-closed outcome is by nature the one that does not say whether the
+    peer has the message. -/
+theorem late_report_only_after_teardown_broadcast (c : Cfg) (hr : Reachable c) (i : Nat) (hl : (c.s i).late = true) :
+    (c.s i).wres = some .closed ∧ (c.s i).done.isSome = true ∧ (c.g (c.s i).ep).genDone = true := by
+  have hc := cinv_reachable hr
+  obtain ⟨h1, h2⟩ := (hc.sout i).2.2.2.2.1 hl
+  obtain ⟨g, hg⟩ := Option.isSome_iff_exists.mp ((hc.bail i).2 h2)
+  have hge := (hc.sloc i).2.1 g hg
+  exact ⟨h1, h2, by rw [hge]; exact (hc.bail i).1 g hg h1⟩
+
+/-- the old gap trace (before c77bf45): a single-block message completely ACKed and reported, then the generation torn down before the
+    sender took the report; the sender used to be able to take the `genDone` branch -/
+def gapPrefix : List Action :=
   [.publish, .connUp, .setSelected true, .spawn 0, .begin 0 .sync 1, .pin 0, .gate 0, .lock 0, .check 0, .load 0, .take 0,
-   .xmit 0 true, .finish 0 .ok, .setSelected false, .cancel 0, .stopSeal 0, .stopDone 0, .bail 0, .unlock 0]
+   .xmit 0 true, .finish 0 .ok, .setSelected false, .cancel 0, .stopSeal 0, .stopDone 0]
+
+def gapTrace : List Action := gapPrefix ++ [.bail 0, .unlock 0]
 
 set_option maxRecDepth 16000 in
-theorem counterexample_acked_message_uncounted_at_generation_end :
-    ∃ c, Reachable c ∧ (c.s 0).done = some .ok ∧ (c.s 0).out = some .closed ∧ c.m.sent = 0 ∧ c.wire = [⟨0, 0, true⟩] :=
-  ⟨run init gapTrace, ⟨_, rfl⟩, by decide, by decide, by decide, by decide⟩
+/-- REGRESSION: at that point of the trace the connection-closed branch is no longer enabled (the driver's replay rejects the action
+    list at `bail`: `disabled@17`); the sender takes the report instead, the write is counted and the call goes on to its reply wait -/
+theorem gap_trace_no_longer_enabled :
+    enabled (run init gapPrefix) (.bail 0) = false ∧ enabled (run init gapPrefix) (.result 0) = true ∧
+    ((run init gapTrace).s 0).pc = .handed ∧ (run init gapTrace).m.sent = 0 ∧
+    ((run init (gapPrefix ++ [.result 0, .unlock 0])).s 0).pc = .written ∧ (run init (gapPrefix ++ [.result 0, .unlock 0])).m.sent = 1 :=
+  ⟨by decide, by decide, by decide, by decide, by decide, by decide⟩
+
+/-- the residual in the model: the broadcast closes and the sender leaves BEFORE the engine reports (one ACKed block on the wire, report
+    `ok` marked late, connection-closed, nothing counted) -/
+def lateTrace : List Action :=
+  [.publish, .connUp, .setSelected true, .spawn 0, .begin 0 .sync 1, .pin 0, .gate 0, .lock 0, .check 0, .load 0, .take 0,
+   .xmit 0 true, .setSelected false, .cancel 0, .stopSeal 0, .stopDone 0, .bail 0, .unlock 0, .finish 0 .ok]
+
+set_option maxRecDepth 16000 in
+example : Reachable (run init lateTrace) ∧ ((run init lateTrace).s 0).done = some .ok ∧ ((run init lateTrace).s 0).late = true ∧
+    ((run init lateTrace).s 0).out = some .closed ∧ (run init lateTrace).m.sent = 0 :=
+  ⟨⟨_, rfl⟩, by decide, by decide, by decide, by decide⟩
 
 /-! ## Non-vacuity: a two-block send with one retransmission, a reply wait that times out, a failed line transaction, a two-block
     inbound message with a duplicate block in between (one delivery), an async send refused by the B2 gate -/
